@@ -115,6 +115,8 @@ func runC14(r *Report) {
 	if c := newPieceCtx(r, "R9"); c.ok {
 		c.r8("R9")
 	}
+	// fileChunks assumes the file table is in offset order and never changes (C20.R1 re-evaluated)
+	c20FilesImmutable(r, "R10")
 }
 
 func c14R1(r *Report) {
@@ -216,6 +218,28 @@ func c14R1(r *Report) {
 		return false
 	}
 	okDrop := dropsOnEveryPath(wc, 0)
+	// … and the count is given up only after it was reported: a store to w.count in Close (or its helper) that is not
+	// dominated by the TorDrop makes the "nothing left" exit true without anything having been released
+	for _, f := range p.SrcFuncs() {
+		if relPkg(f) != "tor" || !(f == wc || p.inUnitOf(f, wc)) {
+			continue
+		}
+		allInstrs(f, func(in ssa.Instruction) {
+			st, ok := isStoreToField(in, countF)
+			if !ok {
+				return
+			}
+			reported := false
+			allInstrs(f, func(i2 ssa.Instruction) {
+				if isDrop(i2) && instrDominates(i2, st) {
+					reported = true
+				}
+			})
+			if !reported {
+				okDrop = false
+			}
+		})
+	}
 	r.Check(okDrop, "R1", "writer.Close/drops-remaining-count", wc.Pos(), "Close reports the remaining reserved bytes as dropped", "writer.Close no longer emits TorDrop{index, offset, count} for the remaining reservation")
 }
 
